@@ -20,7 +20,7 @@ invariants, scenario emission), spec/HelpersTrace.tla (validation of recorded ex
 Verdict: VIOLATION iff a public accessor / error status contradicts the IDEAL on a specified operation
 sequence; private-state or machine-only disagreement is drift.
 """
-import json, os, re, sys, threading, zlib
+import io, json, os, re, sys, threading, zlib
 from . import common as C
 from . import c20_helpers2 as H2
 
@@ -66,8 +66,11 @@ def plain(x):
 
 
 def opt(fn):
+    """[result] or [] when the real code raised; trouble of the harness itself is never an observation."""
     try:
         return [fn()]
+    except C.MachineryError:
+        raise
     except Exception:
         return []
 
@@ -287,25 +290,51 @@ def rc_obs(rc, kindof, full=True, files=False):
             f2 = frame_of(rc.to_dataframe(columns={n: n for n in rn}), enc)
             return f1 if f1 == f2 else {"#list/dict selection differ": [f1, f2]}
         o["rframe"] = opt(rframe)
-    if files:                         # the two exports, read back from scratch files
-        base = os.path.join(C.WORK, PID, f"io-{os.getpid()}")
+    if files:                         # the two exports, read back from scratch files of this process and this call
+        iodir = H2.wd("io")
+        base = os.path.join(iodir, H2.unique("rc"))
 
         def cell(n, c):
             return enc(c if kindof.get(names[n]) == "str" else num_or_str(c))
 
+        def export(fn, path):
+            """call the library's export; an exception is an observation only if the scratch directory is intact"""
+            try:
+                fn(path)
+            except Exception:
+                if not os.path.isdir(iodir):
+                    raise C.MachineryError(f"scratch directory {iodir} disappeared while exporting")
+                raise
+            if not os.path.isdir(iodir):
+                raise C.MachineryError(f"scratch directory {iodir} disappeared while exporting")
+
+        def readback(path, mode_kw):
+            try:
+                with open(path, **mode_kw) as f:
+                    return f.read()
+            except FileNotFoundError:
+                if os.path.isdir(iodir):
+                    raise              # the export returned without writing the file: an observation
+                raise C.MachineryError(f"scratch directory {iodir} disappeared before reading {path}")
+            except OSError as e:
+                raise C.MachineryError(f"cannot read back {path}: {e}")
+
         def csvback():
             import csv
-            rc.to_csv(base + ".csv")
-            with open(base + ".csv", newline="") as f:
-                rows = list(csv.reader(f))
+            export(rc.to_csv, base + ".csv")
+            rows = list(csv.reader(io.StringIO(readback(base + ".csv", dict(newline="")))))
             return {"cols": rows[0][1:] if rows else [], "rows": [[cell(n, c) for n, c in enumerate(r[1:])] for r in rows[1:]]}
 
         def fileback():
-            rc.to_file(base + ".txt")
-            with open(base + ".txt") as f:
-                return parse_text(f.read(), cell)
+            export(rc.to_file, base + ".txt")
+            return parse_text(readback(base + ".txt", {}), cell)
         o["csv"] = opt(csvback)
         o["file"] = opt(fileback)
+        for ext in (".csv", ".txt"):            # only this call's own files
+            try:
+                os.remove(base + ext)
+            except OSError:
+                pass
     return o
 
 
@@ -435,8 +464,7 @@ ALLF = ["append", "setitem", "delitem"]
 def run_mc(sub, table, depth, rows, thorough, invariants, machines=None, init="{<<>>}", firstkeys=ALLK, firstflavs=ALLF,
            slim_sort=False, workers=None, coverage=False):
     """One TLC run of HelpersMC.  table: complete state graph with the ill-formed operations; else histories of `depth`."""
-    wd = os.path.join(C.workdir(PID, clean=False), sub)
-    os.makedirs(wd, exist_ok=True)
+    wd = H2.wd(sub)
     machines = machines or (ALL_STATEFUL + ["grid", "comb"] if table else ALL_STATEFUL)
     mod = cfg_module(table, machines, init, slim_sort).replace("{FIRSTKEYS}", C.tla_str(set(firstkeys))).replace("{FIRSTFLAVS}", C.tla_str(set(firstflavs)))
     with open(os.path.join(wd, "HelpersCfg.tla"), "w") as f:
@@ -467,6 +495,8 @@ def apply_real(w, obj, op):
 def observe_real(w, obj, full):
     try:
         return _observe_real(w, obj, full)
+    except C.MachineryError:
+        raise
     except Exception as e:            # an accessor that never raises in the model raised
         return {("size" if w.startswith("rc") else "len"): -1, "exception": repr(e)[:200]}
 
@@ -596,6 +626,8 @@ def replay_static(rec):
 def safe_obs(field, fn, *a):
     try:
         return fn(*a)
+    except C.MachineryError:
+        raise
     except Exception as e:
         return {field: -1, "exception": repr(e)[:200]}
 
@@ -762,8 +794,7 @@ CHECK_DEADLOCK FALSE
 
 def validate(sub, traces, workers=None):
     """-> ({tid: (mok, via, judged)}, {tid: reject text}, TLCResult)"""
-    wd = os.path.join(C.workdir(PID, clean=False), sub)
-    os.makedirs(wd, exist_ok=True)
+    wd = H2.wd(sub)
     f = os.path.join(wd, "traces.json")
     with open(f, "w") as fh:
         json.dump(traces, fh)
@@ -871,7 +902,7 @@ def run(replay=None):
     thorough = C.tier() == "thorough"
     if replay:
         return run_replay(V, replay)
-    C.workdir(PID)
+    H2.set_wd(C.workdir(PID))
     rnd = C.rng(20)
     SEED = C.seed()
     FULL_EVERY = 8 if thorough else 16
@@ -1058,7 +1089,7 @@ def run(replay=None):
 def run_replay(V, path):
     body = json.load(open(path))
     s = body["scenario"]
-    C.workdir(PID)
+    H2.set_wd(C.workdir(PID))
     bad = False
     if s["kind"] == "hist":
         rt = run_mc("table", True, 0, 5, True, ["Emit"])
